@@ -651,20 +651,24 @@ def run(tier: str, seed: int) -> dict:
             counts["rule_texts"] += r["texts"]
             counts["distinct_asts"] += r["asts"]
             counts["rule_evaluations"] += r["evals"]
-            if r["sample"] and len(samples) < 3:
-                samples.append(r["sample"])
         elif kind in ("pairs", "pairs4"):
             counts["pair_comparisons"] += r["evals"]
             counts["pairs_equal"] += r["equal"]
         else:
             counts["removal_reaction_checks"] += r["evals"]
-    samples.sort(key=lambda s: s["text"])
+    for (nl, ti, off, spid, _fe) in [j for j in jobs if j[0] == 4][:2] + [j for j in jobs if j[0] == 3][:1]:
+        tree, ids = _trees(nl)[ti], _alphabet(off)
+        sps = SPELLINGS if spid < 0 else THIRDS[spid]
+        samples.append({"tree": tree_json(tree), "ids": ids, "text": render(tree, ids, sps[(ti + off) % len(sps)])})
     # keep the three shortest witnesses per key
     fails.sort(key=lambda f: (f["key"], len(str(f["replay"].get("text", f["failure"]))), str(f["replay"])))
-    kept, per = [], {}
+    kept, per, texts = [], {}, {}
     for f in fails:
         per[f["key"]] = per.get(f["key"], 0) + 1
-        if per[f["key"]] <= 3:
+        seen = texts.setdefault(f["key"], set())
+        t = str(f["replay"].get("text", f["failure"]))
+        if len(seen) < 3 and t not in seen:          # three witnesses per key, with different rule texts
+            seen.add(t)
             kept.append(f)
     return {
         "evaluations": counts["rule_evaluations"] + counts["pair_comparisons"] + counts["removal_reaction_checks"],
